@@ -849,6 +849,8 @@ class Evaluator:
                 return f(self, base, node)
             if attr in base.attrs:
                 return base.attrs[attr]
+            if attr == "__dict__" and base.attrs.get("__class__"):
+                return base.attrs  # the instance dictionary of a modelled package object is its attribute table
             # a property or method of a package class bound to this object?
             cq = base.attrs.get("__class__")
             if cq:
